@@ -23,6 +23,8 @@ type Flow struct {
 	F  *Fn
 	G  *cfg.CFG
 	at map[ast.Node]Pt // every CFG node -> its point
+	// EdgeOK, when set, prunes CFG edges during searches (path-sensitive pruning by derived facts).
+	EdgeOK func(b *cfg.Block, succ int) bool
 }
 
 func (p *Prog) Flow(f *Fn) *Flow {
@@ -142,7 +144,10 @@ func (fl *Flow) search(starts []Pt, goal func(ast.Node) bool, block func(ast.Nod
 			push(Pt{pt.B, pt.I + 1}, qi)
 			continue
 		}
-		for _, s := range pt.B.Succs {
+		for si, s := range pt.B.Succs {
+			if fl.EdgeOK != nil && !fl.EdgeOK(pt.B, si) {
+				continue
+			}
 			push(Pt{s, 0}, qi)
 		}
 	}
